@@ -18,7 +18,32 @@ PROP = "C21"
 
 def _task(t):
     seed, nruns = t
+    if isinstance(seed, dict):        # a corpus entry: one kernel with one configuration
+        v, out = kcheck.replay_one(seed["kernel"], seed["cfg"])
+        return {"seed": 0, "features": seed["kernel"].get("features", []), "runs": 1, "rejected": None, "fired": out.get("fired", 0),
+                "steps": sum(s[2] for s in out.get("steps", [])), "distinct": [], "races_checked": 1, "conflicts": 0,
+                "teams": [seed["cfg"]["team"]], "variants": [seed["cfg"]["variant"]], "chunks": out.get("chunks", 0), "sample": None,
+                "violations": ([{"class": v[0][0], "text": v[0][1], "kernel": seed["kernel"], "cfg": seed["cfg"]}] if v else [])}
     return kcheck.explore_kernel(seed, nruns)
+
+
+def _corpus():
+    import os
+    d = os.path.join(common.VERIF, "corpus", PROP)
+    out = []
+    try:
+        names = sorted(os.listdir(d))
+    except OSError:
+        return out
+    for n in names:
+        if n.endswith(".json"):
+            try:
+                with open(os.path.join(d, n)) as f:
+                    rp = json.load(f)
+                out.append({"kernel": rp["kernel"], "cfg": rp["cfg"]})
+            except (OSError, ValueError, KeyError):
+                pass
+    return out
 
 
 def _replay_task(t):
@@ -49,6 +74,8 @@ def main(tier):
     rejected_samples = []
 
     def tasks():
+        for c in _corpus():
+            yield (c, nruns)
         i = 0
         while True:
             yield (common.run_seed(seed, i, PROP), nruns)
